@@ -47,6 +47,9 @@ FAULT_TABLE = [
     ('SLL', 'a', ['MissingInput']), ('SLL', 'a,b,c,d', ['MissingInput']),
     ('S_any', 'ab', ['InvalidInput']), ('S_pat', 'cat!', ['InvalidInput']),
     ('I', '{1,2}', ['InvalidInput']), ('I', '[1,2>', ['InvalidInput']), ('I', '[1]', ['ConfigError']), ('I', '[1,2,3]', ['MissingInput']),
+    ('IB', '<1,2]', ['InvalidInput']), ('IB', '[1,2>', ['InvalidInput']), ('IB', '|1,2|', ['InvalidInput']), ('IB', '{1,2|', ['InvalidInput']),
+    ('ML', 'v', ['InputTypeError']), ('ML', '[1,2]', ['InputTypeError']), ('ML', 'A', ['InputTypeError']), ('ML', 'A^2', ['InputTypeError']),
+    ('MLV', 'x', ['InputTypeError']), ('MLV', 'A', ['InputTypeError']), ('MV', '3', ['InputTypeError']), ('MV', '[1,2,3]', ['InputTypeError']),
     ('SUM', ['1.5', '3', 'n', 'n'], ['SummationError']), ('SUM', ['1', '3', 'n', 'pi'], ['InvalidInput']),
     ('SUM', ['1', '', 'n', 'n'], ['MissingInput']), ('L', ['', 'x'], ['MissingInput', None]),
 ]
@@ -314,6 +317,14 @@ def run_table(ctx):
             return M.StringGrader(answers='cat', validation_pattern='[a-z]+')
         if kind == 'I':
             return M.IntervalGrader(answers='[1,2]')
+        if kind == 'IB':
+            return M.IntervalGrader(answers='{1,2]', opening_brackets='([{', closing_brackets=')]}')
+        if kind in ('ML', 'MLV', 'MV'):
+            from mitxgraders.comparers import LinearComparer
+            sf = {'A': M.RealMatrices(shape=[2, 2]), 'v': M.RealVectors(shape=2)}
+            expect = {'ML': rng.choice(['trace(A)+x', 'v*v', 'det(A)']), 'MLV': 'A*v', 'MV': 'A*v'}[kind]
+            ans = expect if kind == 'MV' else {'comparer': LinearComparer(), 'comparer_params': [expect]}
+            return M.MatrixGrader(answers=ans, variables=['x', 'A', 'v'], sample_from=sf, max_array_dim=2)
         if kind == 'SUM':
             return M.SumGrader(answers={'lower': '1', 'upper': '3', 'summand': 'n', 'summation_variable': 'n'})
         if kind == 'L':
